@@ -14,7 +14,7 @@
 From Coq Require Import List NArith ZArith.
 From Coq.Strings Require Import Byte.
 From SP Require Import Bytes Params Msgpack Crypto Errors Packets Chunker Rand Sign Verify SignProofs SignAuthProofs SignAuthLocated.
-From SP Require Import Nonce Packets Signcrypt GoLang GoAst GoAstProofs GoAstProofs2.
+From SP Require Import Nonce Packets Signcrypt GoLang GoLang2 GoAst GoAstProofs GoAstProofs2 GoAstProofs3 GoAstProofs4b.
 From Coq Require String.
 Import String.StringSyntax.
 Import ListNotations.
@@ -73,6 +73,48 @@ Theorem C06_source_attachedSignatureInput (c : crypto) (v : version) (hh chunk :
   = ret_bytes (attached_sig_input c v hh chunk seqno final).
 Proof. exact (go_attachedSignatureInput c v hh chunk seqno final). Qed.
 
+(* SOURCE TIE (per-packet glue): the translated verifyStream.getNextChunk of /repo, run on a receiver object
+   holding the unconsumed input BYTES and Go's packet counter, returns exactly what one step of the model's
+   receive loop says and leaves the stream advanced — for ALL inputs.  `C06_source_verify_loop_is_step` shows the model's
+   loop is that step followed by the end-of-stream check or the next iteration. *)
+Theorem C06_source_verify_getNextChunk (c : crypto) (h : header) (pk hh : bytes) (n : N) (input : bytes) :
+  (vmaj (h_version h) = 1 \/ vmaj (h_version h) = 2)%Z ->
+  (n < 18446744073709551616)%N ->
+  chunk_spec "v" VBytes (fun rest => g_vs h pk hh (g_mps rest (n + 1)))
+             (verify_step c (h_version h) pk hh n input)
+             (run_func2 (ext_chunk c TBytes) f_saltpack_verifyStream_getNextChunk [g_vs h pk hh (g_mps input n)]).
+Proof. exact (go_verify_getNextChunk c h pk hh n input). Qed.
+
+Theorem C06_source_verify_loop_is_step (c : crypto) (fuel : nat) (v : version) (pk hh : bytes) (n : N) (input : bytes) (acc : list bytes) :
+  verify_loop c (S fuel) v pk hh n input acc =
+  match verify_step c v pk hh n input with
+  | Err e => mkOut (rev_append acc []) e
+  | Ok (chunk, final, rest) =>
+    if final then mkOut (rev_append (chunk :: acc) []) (assert_end_of_stream rest)
+    else verify_loop c fuel v pk hh (n + 1) rest (chunk :: acc)
+  end.
+Proof. exact (verify_loop_step c fuel v pk hh n input acc). Qed.
+
+(* the signature receiver's header reading: error class, or the header hash / decoded header / advanced
+   stream left in the receiver object, as the model's verify_read_header says, for ALL input bytes *)
+Local Open Scope string_scope.
+Theorem C06_source_verify_readHeader (c : crypto) (vd : validator) (typ : Z) (input : bytes) (s : Z) :
+  typ = mt_attached \/ typ = mt_detached ->
+  let r := run_func2 (ext_vhdr c vd) f_saltpack_verifyStream_readHeader
+                     [VStruct [("mps", g_mps_raw input s)]; VNil; VInt typ] in
+  match verify_read_header c vd typ input with
+  | Ok (h, hh, rest) =>
+    fst r = ORet [VNil] /\
+    lookup "v" (snd r) = Some (g_vs_after_header h hh (g_mps_raw rest ((s + 1) mod two64)))
+  | Err Unmodelled => fst r = OStuck "call"
+  | Err e => exists ev, fst r = ORet [ev] /\ hdr_err_class ev = Some e
+  end.
+Proof. exact (go_verify_readHeader c vd typ input s). Qed.
+Local Close Scope string_scope.
+
+Print Assumptions C06_source_verify_getNextChunk.
+Print Assumptions C06_source_verify_loop_is_step.
+Print Assumptions C06_source_verify_readHeader.
 Print Assumptions C06_source_verify_processBlock.
 Print Assumptions C06_source_attachedSignatureInput.
 Print Assumptions C06_authentic.
